@@ -27,8 +27,10 @@ Inductive ohist := H (v w : pf).
 (* one row as read from a bucket: shard, metric, key.Timestamp, non-empty (index, Tags[i], STags[i]) entries,
    top entry key ((0,[]) = tail), MaxCounterHostTag, counter, value aggregates (ONone = ValueSet false),
    HLL items, ValueTDigest != nil *)
-Inductive orow := OR (sh metric ts : Z) (key : list okv) (topI : Z) (topS : bstr) (hostI : Z) (hostS : bstr)
-                     (count : pf) (a : oagg) (uniq : Z) (digest : bool).
+Inductive orow :=
+| OR (sh metric ts : Z) (key : list okv) (topI : Z) (topS : bstr) (hostI : Z) (hostS : bstr)
+     (count : pf) (a : oagg) (uniq : Z) (digest : bool)
+| OS (sh metric ts tag0 mid code key comp topI : Z) (topS : bstr) (count : pf).
 
 Inductive case :=
 | CEv (c : list ocache) (cur : Z) (m : meta) (rt : route)
@@ -56,13 +58,27 @@ Definition agg_match (a : agg) (o : oagg) : bool :=
 
 Definition all_indices : list Z := map Z.of_nat (seq 0 (Z.to_nat max_tags)).
 
-Definition row_match (r : row) (o : orow) : bool :=
+(* an ingestion-status record in its usual shape, abbreviated by the harness (lossless): metric, shard, second,
+   Tags[0..4] = tag0, metric id, code, tag key, component; top entry; count; no string tags, no host, no values *)
+Definition expand_row (o : orow) : orow :=
   match o with
+  | OS sh metric ts tag0 mid code key comp topI topS count =>
+      OR sh metric ts
+         (filter (fun k => match k with K _ x _ => negb (x =? 0) end) [K 0 tag0 []; K 1 mid []; K 2 code []; K 3 key []; K 4 comp []])
+         topI topS 0 [] count ONone 0 false
+  | _ => o
+  end.
+
+(* written with [if] so that vm_compute (call by value) skips the key sweep when the cheap fields already differ *)
+Definition row_match (r : row) (o : orow) : bool :=
+  match expand_row o with
   | OR sh metric ts key topI topS hostI hostS count a uq dg =>
-      (r_shard r =? sh) && (r_metric r =? metric) && (r_ts r =? ts)
-      && forallb (fun i => let '(x, s) := okey key i in tagv_eqb (r_key r i) x s) all_indices
-      && tagv_eqb (r_top r) topI topS && tagv_eqb (r_host r) hostI hostS
-      && qclose (r_count r) (qv count) && agg_match (r_agg r) a && (r_uniq r =? uq) && Bool.eqb (r_digest r) dg
+      if (r_shard r =? sh) && (r_metric r =? metric) && (r_ts r =? ts) && (r_uniq r =? uq) && Bool.eqb (r_digest r) dg then
+        if tagv_eqb (r_top r) topI topS && tagv_eqb (r_host r) hostI hostS && qclose (r_count r) (qv count) && agg_match (r_agg r) a
+        then forallb (fun i => let '(x, s) := okey key i in tagv_eqb (r_key r i) x s) all_indices
+        else false
+      else false
+  | OS _ _ _ _ _ _ _ _ _ _ _ => false
   end.
 
 Definition rows_match (rs : list row) (os : list orow) : bool :=
